@@ -77,10 +77,16 @@ type c20Result struct {
 	panicV  string
 }
 
-func c20Bubble(tb *testing.T, timeout, maxDelay time.Duration, g *c20Getter) (res c20Result) {
+// c20Bubble runs one Get in a bubble.  rg, if non-nil, is a long-lived retrying getter that
+// already served earlier calls (its wrapped getter is re-pointed at g for this call).
+func c20Bubble(tb *testing.T, timeout, maxDelay time.Duration, g *c20Getter, shared ...*trust.RetryHTTPSGetter) (res c20Result) {
 	synctest.Test(tb, func(t *testing.T) {
 		g.t0 = time.Now()
 		rg := &trust.RetryHTTPSGetter{Timeout: timeout, MaxRetryDelay: maxDelay, Getter: g}
+		if len(shared) == 1 && shared[0] != nil {
+			rg = shared[0]
+			rg.Getter = g
+		}
 		func() {
 			defer func() {
 				if p := recover(); p != nil {
@@ -156,11 +162,19 @@ func c20Run(r *core.Run) {
 		maxK = 2
 	}
 	hdr := map[string][]string{"X-Seq": {fmt.Sprintf("%x", r.T.Bytes(6))}, "Tcb-Info-Issuer-Chain": {string(r.T.Bytes(20)), "second"}}
-	body := r.T.Bytes(r.T.Range(0, 300))
+	body0 := r.T.Bytes(r.T.Range(0, 300))
+	body := body0
 	url := fmt.Sprintf("https://pcs.example/%x", r.T.Bytes(4))
 	bound := timeout + maxDelay + lat
 
 	// k failures then success, for k = 0.. until the getter gives up twice in a row; then failures forever.
+	// In every second cell all these calls go through ONE RetryHTTPSGetter value and one URL (a
+	// long-lived getter): what an earlier call fetched must not leak into a later one.
+	var long *trust.RetryHTTPSGetter
+	if r.Index%2 == 1 {
+		long = &trust.RetryHTTPSGetter{Timeout: timeout, MaxRetryDelay: maxDelay}
+		r.Probe("calls_through_one_long_lived_getter")
+	}
 	gaveUp := 0
 	for k := 0; ; k++ {
 		ff := k
@@ -183,14 +197,16 @@ func c20Run(r *core.Run) {
 			// keep the enumeration shape identical under Focus: we need to know when to stop,
 			// which depends on outcomes, so execute silently without judging.
 			g := &c20Getter{failFirst: ff, latency: lat, hdr: hdr, body: body, url: url}
-			res := c20Bubble(r.TB, timeout, maxDelay, g)
+			res := c20Bubble(r.TB, timeout, maxDelay, g, long)
 			if res.aborted || res.err != nil {
 				gaveUp++
 			}
 			continue
 		}
+		// every call serves its own body, so a response from an earlier call is recognisable
+		body = append(append([]byte(nil), body0...), byte(k), byte(k>>8))
 		g := &c20Getter{failFirst: ff, latency: lat, hdr: hdr, body: body, url: url}
-		res := c20Bubble(r.TB, timeout, maxDelay, g)
+		res := c20Bubble(r.TB, timeout, maxDelay, g, long)
 		r.Eval()
 		r.SimTime += res.elapsed
 		nAtt := len(g.attempts)
@@ -344,7 +360,7 @@ func init() {
 			return nCells
 		},
 		Run:         c20Run,
-		MustProbe:   []string{"gave_up_within_bound", "wait_capped_at_max", "success_after_failures_4+"},
+		MustProbe:   []string{"gave_up_within_bound", "wait_capped_at_max", "success_after_failures_4+", "calls_through_one_long_lived_getter"},
 		SimTimeNote: "sum of fake-clock time elapsed inside RetryHTTPSGetter.Get over all bubbles",
 	})
 }
